@@ -103,7 +103,12 @@ func VerifC19Seq() {
 	var d Decorations
 	var model []string
 	for s := 0; s < steps; s++ {
-		arg := vfMkStrings("s"+string(rune('0'+s))+"a", vfChoice("alen", 3), vfChoice("aspare", 2))
+		alen := vfChoice("alen", 3)
+		if steps > 2 && alen == 1 {
+			alen = 2 // thorough: argument lengths 0 and 2 only, so that three steps stay within the path budget
+			vfAssume(false)
+		}
+		arg := vfMkStrings("s"+string(rune('0'+s))+"a", alen, vfChoice("aspare", 2))
 		op := vfChoice("op", 4)
 		model = vfC19Op(&d, model, op, arg)
 		full := arg[:cap(arg)]
